@@ -226,6 +226,31 @@ class GoGen:
         hi = 'vI(%s)' % self.big(*self.tr(e[3])) if e[3] else ''
         return '%s[%s:%s]' % (code, lo, hi), tk
 
+    def typekey(self, te):
+        from .speceval import Ev
+
+        class Shim:
+            pass
+        sh = Shim()
+        sh.prog = self.prog
+        sh.types = self.types
+        ev = Ev(sh, None, {}, self.pkg, None, self.imports)
+        if te[0] == 'type':
+            return ev.typekey(te[1])
+        from .exprparse import unparse
+        return ev.typekey(unparse(te))
+
+    def tr_deref(self, e):
+        code, tk = self.tr(e[1])
+        if self.types.kind(tk) != 'ptr':
+            raise Untranslatable('deref of ' + str(tk))
+        return '(*%s)' % code, self.types.elem(tk)
+
+    def tr_assert(self, e):
+        code, tk = self.tr(e[1])
+        t = self.typekey(e[2])
+        return '%s.(%s)' % (code, self.gotype(t)), t
+
     def tr_un(self, e):
         code, tk = self.tr(e[2])
         if e[1] == '!':
@@ -249,7 +274,7 @@ class GoGen:
         if op in ('==', '!='):
             if self.is_int(ta) and self.is_int(tb):
                 return '(%s.Cmp(%s) %s 0)' % (self.big(a, ta), self.big(b, tb), op), 'bool'
-            if ta == '$nil' or tb == '$nil' or ta == tb or ta == 'bool':
+            if ta == '$nil' or tb == '$nil' or ta == tb or ta == 'bool' or self.types.under(ta) == self.types.under(tb):
                 return '(%s %s %s)' % (a, op, b), 'bool'
             raise Untranslatable('comparison %s %s' % (ta, tb))
         if op in ('<', '<=', '>', '>='):
@@ -302,6 +327,10 @@ class GoGen:
                     return 'func() bool { if %s { return %s }; return %s }()' % (c, a, b), 'bool'
                 gt = self.gotype(ta)
                 return 'func() %s { if %s { return %s }; return %s }()' % (gt, c, a, b), ta
+            if n == 'is':
+                code, tk = self.tr(args[0])
+                t = self.typekey(args[1])
+                return 'func() bool { _, ok := %s.(%s); return ok }()' % (code, self.gotype(t)), 'bool'
             if n in ('min', 'max'):
                 a = self.big(*self.tr(args[0]))
                 b = self.big(*self.tr(args[1]))
